@@ -218,5 +218,7 @@ def check(ck: Check) -> None:
     ck.run("R01.9", "validators mutate nothing reachable from their arguments", lambda: rule_effect_free(
         ck, "R01.9", [CONS + "validate_block_by_itself", CONS + "validate_block_in_coinstate"], "a rejected block leaves the prior state untouched"))
     ck.run("R01.10", "apply mirrors validate", lambda: rule_uto_apply(ck, "R01.10"))
+    from .c03 import r03_1
+    ck.run("R03.1", "the prior chain state is a persistent value nobody writes", lambda: r03_1(ck))
     ck.run("R01.11", "key semantics of an output reference", lambda: r01_11(ck))
     ck.assume("ECDSA (ecdsa library) and SHA-256 behave as specified; immutables.Map is persistent")
